@@ -191,7 +191,8 @@ def run(index, tier="quick", seed=0) -> Result:
         # written: in the `if`, in a local first) and the exceptions the getter can raise
         it_ = Interp(index)
         r_ = it_.run_entry(fn, index.cls(cname))
-        lens = [e for e in r_["events"] if e.type == "cmp" and e.form == "compare" and e.func is fn and e.left is not None
+        lens = [e for e in r_["events"] if e.type == "cmp" and e.form == "compare" and e.left is not None
+                and (e.func is fn or (e.func is not None and e.func.name.startswith("_") and len(e.path) == 2))     # also in a shared private helper
                 and e.left.extra and isinstance(e.left.extra, tuple) and e.left.extra[0] == "len" and e.right is not None
                 and e.right.is_number_const() and e.op in ("Gt", "GtE", "Lt", "LtE")]
         raised = sorted({x[0] for x in r_["raises"]})
@@ -201,7 +202,7 @@ def run(index, tier="quick", seed=0) -> Result:
             kconst = e.right.const
             # the smallest count for which a non-zero residual raises, found by folding the guard of the raise (so that
             # `n > 3 and not close`, `not (n <= 3 or close)`, a guard bound to a local first ... are all read the same way)
-            thr = _guard_threshold(fn.node, e.node)
+            thr = _guard_threshold(e.func.node, e.node)
             if thr is None:
                 if e.op in ("Gt", "GtE"):
                     thr = kconst if e.op == "Gt" else kconst - 1
